@@ -33,6 +33,8 @@ RECORDS = {
     'z7': bytes(7) + bytes(range(7, 64)),
     'z8': bytes(8) + bytes(range(8, 64)),     # timestamp 0
     'zero': bytes(64),                         # indistinguishable from padding when first; never generated first
+    'm2': bytes([0x00, 0x02, 0xaa, 0x55]) + bytes(range(4, 64)),   # begins with the version-2 magic (timestamp low half 0x55aa0200)
+    'm3': bytes([0x00, 0x03, 0xaa, 0x55]) + bytes(range(4, 64)),   # begins with the version-3 magic
 }
 NZ_FIRST = ['cap', 'ff', 'dist']              # kinds whose first byte is non-zero
 PADS_Q = [0, 1, 2, 7, 8, 31, 32, 63, 64, 65, 100, 'page']
@@ -254,8 +256,8 @@ class C02(Check):
     rule = ('version-2 dumps written by an independent encoder: full product thread map (all sequences of <=2 (quick) / <=3 '
             '(thorough) entries over 7 entry kinds incl. duplicate tid, duplicate pid, empty/19-byte/multi-byte/junk-after-NUL '
             'names) x padding length (12 values incl. 0, 1, 63..65, page alignment) x record sequence (<=2 (quick) / <=3 '
-            '(thorough) over 8 record kinds incl. records beginning with 1,2,7,8 zero bytes and an all-zero record in '
-            'non-first position) x both entry points; plus all sequences of <=3 parses over 4 dumps through the same table '
+            '(thorough) over 10 record kinds incl. records beginning with 1,2,7,8 zero bytes and, in '
+            'non-first position, an all-zero record and records beginning with the version-2 / version-3 magic) x both entry points; plus all sequences of <=3 parses over 4 dumps through the same table '
             'objects in 4 reuse modes, and with all generators created first and consumed afterwards (same parser via parse(), via parse_v2() directly, same facade); plus two parses ALIVE AT ONCE (3x3 dump pairs), their generators advanced in every interleaving; plus dumps of 63..4097 records. Oracle: events == independent decode of each record; tables == file map (last wins), '
             'identity preserved, nothing left over. non-trivial = dump has >=1 record and >=1 map entry (or history length >=2). '
             'states = distinct table contents after a parse; transitions = parse calls.')
@@ -277,7 +279,7 @@ class C02(Check):
     def _recseqs(self):
         out = []
         for s in seqs(KINDS_ALL, self.params()['rec_len']):
-            if s and s[0] == 'zero':
+            if s and s[0] in ('zero', 'm2', 'm3'):      # first byte zero: K1 territory, never generated first
                 continue
             out.append(s)
         return out
